@@ -44,13 +44,13 @@ func isPoisonKey(k string) bool {
 // HarnessC13Poison: the poison middleware around an arbitrary handler result.
 func HarnessC13Poison() {
 	errKind := vrt.Int("errkind", 0, 2) // 0 success, 1 plain error, 2 wrapped error
-	nOut := vrt.Int("nout", 0, 2)
+	nOut := vrt.Int("nout", 0, vrt.Bound("maxout", 2))
 	useFilter := vrt.Bool("filter")
 	filterAccepts := vrt.Bool("filter.accepts")
 	pubFails := vrt.Bool("pub.fails")
 
-	msg := message.NewMessage(vrt.Str("uuid"), message.Payload(vrt.Bytes("payload", 2)))
-	nMeta := vrt.Int("nmeta", 0, 2)
+	msg := message.NewMessage(vrt.Str("uuid"), message.Payload(vrt.Bytes("payload", vrt.Bound("maxpayload", 2))))
+	nMeta := vrt.Int("nmeta", 0, vrt.Bound("maxmeta", 2))
 	before := c13Meta("meta", msg, nMeta)
 	handlerName, topic, subName := vrt.Str("ctx.handler"), vrt.Str("ctx.topic"), vrt.Str("ctx.subscriber")
 	ctx := context.Background()
